@@ -4,13 +4,19 @@ use std::cell::UnsafeCell;
 use std::fmt;
 use std::ops::{Deref, DerefMut};
 use std::panic::{RefUnwindSafe, UnwindSafe};
+#[cfg(not(may_verif))]
 use std::sync::atomic::{AtomicUsize, Ordering};
+#[cfg(may_verif)]
+use crate::verif::atomic::{AtomicUsize, Ordering};
 use std::sync::Arc;
 use std::sync::{LockResult, PoisonError, TryLockError, TryLockResult};
 
 use crate::cancel::trigger_cancel_panic;
 use crate::park::ParkError;
+#[cfg(not(may_verif))]
 use crossbeam::queue::SegQueue;
+#[cfg(may_verif)]
+use crate::verif::SegQueue;
 
 use super::blocking::SyncBlocker;
 use super::mutex::{self, Mutex};
